@@ -306,6 +306,9 @@ class Ctx:
                             rt = self._callee_return(s0, cb)
                             if rt is not None and unwrap:
                                 rt = ok_payload(rt)
+                            if rt is not None and rt[0] == "call":
+                                # the callee answers with a combinator over an assumed value (`opt.map_or(A, |x| B { x })`)
+                                rt = resolve_terms(self.prog, rt, 1, None, self.assumptions)
                             if rt is not None:
                                 ra = rt[1] if rt[0] == "phi" else (rt,)
                                 # `?` inside the callee: an error variant of unknown payload
@@ -1545,6 +1548,15 @@ def resolve_terms(prog, t, depth=3, _memo=None, assumptions=()):
             out = ok_payload(rec(t[1]), t[2])
         elif t[0] == "trybranch":
             out = rec(t[1])
+        elif t[0] == "variant" and len(t) == 3:
+            # downcast of a value that resolves to a freshly built enum value of that variant: the value itself
+            inner = rec(t[1])
+            alts_v = [a_ for a_ in (inner[1] if inner[0] == "phi" else (inner,))]
+            keep_v = [a_ for a_ in alts_v if a_[0] == "agg" and a_[2] == t[2]]
+            if alts_v and all(a_[0] == "agg" for a_ in alts_v) and keep_v:
+                out = keep_v[0] if len(keep_v) == 1 else Terms._phi(keep_v)
+            else:
+                out = ("variant", inner, t[2])
         else:
             out = (t[0],) + tuple(rec(x) if isinstance(x, tuple) else x for x in t[1:])
     else:
